@@ -299,6 +299,8 @@ func baseOf(c psatoken.IClaims) any {
 		return &t.P2Claims
 	case *X4Claims:
 		return &t.P1Claims
+	case *X7Claims:
+		return baseOf(t.IClaims)
 	}
 	panic(fmt.Sprintf("unknown claims type %T", c))
 }
